@@ -13,7 +13,7 @@ Proof      : coq/Props/C08.v over Model/Commit.v with cas = true and NO hypothes
              client gave up = the same event later in the schedule: C08_delayed_landing_nonvacuous); the committer's
              reaction is computed from the regenerated tables gen_flip_exn / gen_tx_on
              (C08_failed_flip_reaction_regenerated); the chain theorems hold for every such schedule
-             (C08_faulted_no_lost_update) and a committer whose pointer write raised is never acknowledged, whatever the
+             (C08_faulted_no_lost_update_partial: over the machine in which no pointer write lands while a read-back is pending) and a committer whose pointer write raised is never acknowledged, whatever the
              pointer says afterwards (C08_failed_write_never_acknowledged).
              The store REFUSES a write it has APPLIED (XFlipResent: botocore's default retry policy re-sends a PutObject whose
              response was lost; the re-sent copy of the conditional request answers 412/409 because the first one landed): what
@@ -27,12 +27,19 @@ Proof      : coq/Props/C08.v over Model/Commit.v with cas = true and NO hypothes
              writes: prompt_irrelevant_without_pending).
              Model/PtrFallback.v is commit()'s FALLBACK: the pointer object read with the ETag is unusable (absent / garbage /
              dangling), `current = self.refresh()` re-reads it and recovers by scanning; damage events anywhere.
-             UNCONDITIONALLY every applied pointer write replaced exactly the object whose ETag its committer had read, and the
-             version validated is the one named by those bytes or -- unusable object -- the one recovered by the scan, never
-             that of a pointer repaired in between (C08_fallback_replaced_what_it_read).  "No acknowledged commit is
-             overwritten" on that path is FALSE for arbitrary scan results (C08_fallback_no_lost_update_refuted: witness by
-             computation) and proved under the exact extra hypothesis that every scan returns the version named by the last
-             successful pointer write (C08_fallback_no_lost_update_partial; that hypothesis is C10's subject).
+             The store compares only what it can see of an unusable object (rstep_s idn: "absent" = create-if-absent, ONE identity;
+             garbled = the ETag of the content, S3: its MD5).  Every applied pointer write replaced exactly the object STATE whose
+             ETag its committer had read, and the version validated is the one named by those bytes or -- unusable object -- the one
+             recovered by the scan, never that of a pointer repaired in between: proved under the exact hypothesis that no two
+             damage events leave the same store-visible object (C08_fallback_replaced_what_it_read_partial), refuted for an
+             absent pointer deleted twice and for the same garbage written twice within one attempt
+             (C08_fallback_replaced_what_it_read_refuted; reproduced on the real code: needs an outside agent destroying the
+             pointer twice the same way during one commit attempt -- outside the property's schedules, no library repair).  "No
+             acknowledged commit is overwritten" on that path is FALSE for arbitrary scan results and for the double damage
+             (C08_fallback_no_lost_update_refuted: witnesses by computation) and proved under the two exact extra hypotheses:
+             every scan returns the version named by the last successful pointer write (C10's subject; the residual is the
+             event of C10_leftover_surfaces) and damaged objects are pairwise distinguishable (C08_fallback_no_lost_update_partial).
+             PROCESS TOPOLOGY / NAME UNIQUENESS is established by the check, not assumed: see Oracle.
 Tie        : trace validation of the real S3StorageBackend + MetadataManager.commit over an in-memory S3
              with conditional writes (harness/lib/mems3.py), under the scheduler, with a lock that grants
              everyone and with the real lease lock; the projection demands that the validation read IS the read
@@ -55,6 +62,14 @@ Oracle     : the serializability oracle of C01 on every explored schedule; on fa
              append's rows are missing; full serial replay whenever every scan returned the last written version (a scan
              that returns another committer's UNPUBLISHED file -- possible only without lock exclusion on an unusable
              pointer -- is counted in the stats and left to C10).
+             Uniqueness of metadata file names per commit ATTEMPT (what the read-back after a refusal and the clean-up of a failed
+             attempt rest on): over every run of every topology -- handles of their own, threads on one handle, workers FORKED
+             from a process that had opened the table and using the handle they inherited (harness/lib/forkimage.py) -- no two
+             commit attempts write the same metadata file name and no metadata write replaces an object (storage log + store
+             history); plus a probe with the real os.fork(): forked workers committing through the inherited handle report the
+             names they wrote.  Forked / threaded committers run the same schedules (enumeration, lease lapse + takeover at every
+             point, failing / delayed pointer writes, random 3-4 committers) under the serializability and acknowledged-commits
+             oracles and the trace correspondence.
 """
 from __future__ import annotations
 
@@ -66,9 +81,10 @@ from harness.props import c01
 
 LEVEL = "proof"
 THEOREMS = ["C08_ack_implies_validated", "C08_no_lost_update", "C08_lost_lock_before_fence_conflict",
-            "C08_cas_path_regenerated", "C08_failed_flip_reaction_regenerated", "C08_faulted_no_lost_update",
+            "C08_cas_path_regenerated", "C08_failed_flip_reaction_regenerated", "C08_faulted_no_lost_update_partial",
             "C08_failed_write_never_acknowledged", "C08_refusal_read_back_regenerated", "C08_acknowledged_iff_applied_refuted",
-            "C08_acknowledged_iff_applied_partial", "C08_fallback_replaced_what_it_read", "C08_fallback_no_lost_update_refuted",
+            "C08_acknowledged_iff_applied_partial", "C08_fallback_replaced_what_it_read_refuted", "C08_fallback_replaced_what_it_read_partial",
+            "C08_fallback_no_lost_update_refuted",
             "C08_fallback_no_lost_update_partial", "C08_fallback_path_regenerated"]
 MANIFEST_ENTRY = {
     "level_text": "For CAS storage and ANY lock behaviour (exclusive, lease with arbitrary takeovers, or no exclusion at all) Coq "
@@ -84,20 +100,29 @@ MANIFEST_ENTRY = {
                   "write -- under the stated hypothesis that no pointer write lands between that write and its read-back, and refuted by a "
                   "computed witness without it (C08_acknowledged_iff_applied_partial / _refuted); for commit()'s fallback on an UNUSABLE pointer (absent / garbage / dangling, damage anywhere) that every "
                   "applied pointer write replaced exactly the object whose ETag was read and validated the version that object named "
-                  "or, unusable, the version recovered by the scan -- unconditionally -- and the chain theorems under the stated "
-                  "hypothesis that every scan returns the last successfully written version (without it they are refuted by a "
-                  "computed witness: C08_fallback_no_lost_update_refuted / _partial); real S3StorageBackend / MetadataManager code is "
+                  "or, unusable, the version recovered by the scan -- under the stated hypothesis that no two damage events leave the same "
+                  "store-visible object ('absent' is ONE identity: create-if-absent; garbled = ETag of the content), refuted by computed "
+                  "witnesses for a pointer deleted twice / garbled twice with the same bytes within one attempt "
+                  "(C08_fallback_replaced_what_it_read_partial / _refuted) -- and the chain theorems under that hypothesis plus the stated "
+                  "hypothesis that every scan returns the last successfully written version (without either they are refuted by a "
+                  "computed witness: C08_fallback_no_lost_update_refuted / _partial); the failing-write chain theorem is _partial (machine in "
+                  "which no pointer write lands while a read-back is pending); real S3StorageBackend / MetadataManager code is "
                   "trace-validated against the three models over an in-memory conditional-write S3 under a deterministic scheduler with a "
                   "grant-everyone lock and the real lease lock, including a request-level failure of either committer's pointer PUT at "
                   "every interleaving position and committers that start on an unusable pointer, judged by implementation-only oracles "
-                  "over the store's own pointer history",
+                  "over the store's own pointer history; committers that are threads on one handle or workers forked from a process that "
+                  "had opened the table (inherited handle) run the same schedules, and the uniqueness of metadata file names per commit "
+                  "attempt is checked on every run and by a real os.fork() probe",
     "level_note": "trusted: Coq kernel; translator/gen_commit.py (single ETag-bearing pointer read before validation, the validated version "
                   "derived from that read's bytes -- C08_ack_implies_validated's `a_etag := a_cur := v` in ONE model step rests on this "
                   "data-flow check --, the only other assignment of `current` being the fallback refresh(); failure classes of the "
                   "conditional write: C08_cas_path_regenerated, C08_fallback_path_regenerated); harness projection (validation read must "
                   "be the ETag read; an ETag read that retried a missing object is placed at its last attempt); in-memory S3 is strongly "
-                  "consistent with atomic conditional PUT and ETags unique per object state (the property's premise; for an ABSENT pointer "
-                  "this excludes deleting it twice within one attempt); in-flight PUT delay = interleaving before the atomic landing, and "
+                  "consistent with atomic conditional PUT and ETags unique per object state (the property's premise; the Coq statements on the "
+                  "unusable pointer do NOT assume it: C08_fallback_*_partial state 'damaged objects pairwise distinguishable' and the "
+                  "_refuted ones give the double-damage run); a forked worker's handle is an in-process image of the parent's handle "
+                  "(harness/lib/forkimage.py: deep copy sharing only the store and the scheduler), cross-checked on file names by a real "
+                  "os.fork() probe; in-flight PUT delay = interleaving before the atomic landing, and "
                   "for a client that gave up on the request a landing event of its own (one fault per run); the fault injector at the boto "
                   "surface (harness/lib/protocol.py s3_fault) and the store's put history (mems3.py); the lost-lock theorem covers a lapse "
                   "BEFORE the fence -- a lapse between fence and conditional PUT can be acknowledged (harmless on CAS storage, "
@@ -590,7 +615,7 @@ def check_fault_runs(ctx, name: str, runs: List[Tuple[Dict[str, Any], Any, P.Cas
             # a refused-although-applied write whose version was SUPERSEDED before the read-back is the documented limit of the
             # read-back (C08_acknowledged_iff_applied_refuted): its own stable key
             when = "resent-superseded" if sf["when"] == "resent" and superseded_before_read_back(res) else sf["when"]
-            key = (f"ptr-fault:{when}:{case.get('lock')}:"
+            key = (f"ptr-fault:{when}:{case.get('lock')}:" + ("" if case.get("topology", "separate") == "separate" else case["topology"] + ":")
                    + "+".join(o["kind"] + ("-" + o["which"] if "which" in o else "") for o in case["ops"]))
             if key not in seen_violation_keys:
                 seen_violation_keys.add(key)
@@ -637,6 +662,169 @@ def check_fault_runs(ctx, name: str, runs: List[Tuple[Dict[str, Any], Any, P.Cas
     ctx.stats["pointer_write_faults_fired"] = fired
     ctx.stats["faulted_schedules"] = len(runs)
     ctx.correspondence(name, len(runs), bad)
+
+
+# ---------------------------------------------------------------------------------------------------------------------
+# process topology and the UNIQUENESS of metadata file names across commit attempts
+# ---------------------------------------------------------------------------------------------------------------------
+# The commit point identifies "my write" by the NAME of the metadata file (the read-back after a refusal compares the pointer
+# with it; a cleanly failed attempt deletes the file of that name).  That names are unique per commit ATTEMPT is therefore
+# part of what the property rests on, and is established here rather than assumed -- for every way two committers come into
+# being: threads on one handle ("shared"), handles of their own ("separate"), and workers fork()ed from a process that had
+# already opened the table, which go on using the handle they inherited ("forked": harness/lib/forkimage.py).
+TOPOLOGIES = ["separate", "shared", "forked"]
+
+
+def meta_name_reuse(res: P.CaseResult) -> Optional[str]:
+    """Implementation-only, from the storage log and the store's own history: every metadata file written during the run
+    belongs to ONE commit attempt (one write per name), and no write of a metadata file replaced an existing object."""
+    first: Dict[str, Tuple[str, int]] = {}
+    for idx, e in enumerate(res.log):
+        if e["op"] == "write_file" and P.path_class(e["path"]) == "meta" and e["actor"].startswith("A"):
+            name = e["path"].rsplit("/", 1)[-1]
+            if name in first:
+                a0, i0 = first[name]
+                return (f"two distinct commit attempts wrote the same metadata file name {name!r}: {a0} (log entry {i0}) and "
+                        f"{e['actor']} (log entry {idx}) -- the second write replaces the first committer's content, and 'the pointer "
+                        f"names my file' no longer identifies whose pointer write landed")
+            first[name] = (e["actor"], idx)
+    for h in (res.store.history if res.store is not None else []):
+        key = h["key"]
+        if P.path_class(key.split("/", 1)[1] if "/" in key else key) == "meta" and h["replaced"] is not None:
+            return f"a metadata file write replaced the existing object {key!r} (metadata files are written once)"
+    return None
+
+
+def check_name_uniqueness(ctx, runs: List[Tuple[Dict[str, Any], Any, P.CaseResult]]) -> None:
+    seen = set()
+    per_topology: Dict[str, int] = {}
+    for case, dev, res in runs:
+        topo = case.get("topology", "separate")
+        per_topology[topo] = per_topology.get(topo, 0) + sum(1 for e in res.log if e["op"] == "write_file" and P.path_class(e["path"]) == "meta"
+                                                              and e["actor"].startswith("A"))
+        why = meta_name_reuse(res)
+        if why:
+            key = f"meta-name-reused:{topo}:{case.get('lock')}"
+            if key not in seen:
+                seen.add(key)
+                ctx.violation(key, why, {"case": c01._case_json(case), "deviations": list(dev), "schedule": res.schedule, "outcomes": res.outcomes})
+    ctx.stats["metadata_files_written_per_topology"] = per_topology
+
+
+def topology_runs(ctx, quick: bool) -> List[Tuple[Dict[str, Any], Any, P.CaseResult]]:
+    """Committers that are FORKED workers of a process that had opened the table (each uses the handle it inherited) and
+    committers that are threads on ONE handle: bounded-preemption enumeration under a lock that excludes nobody, the real
+    lease lock with a lapse + takeover at every point of the first committer's commit, a pointer write delayed in flight /
+    failing at the request level at every position, and random schedules of three and four committers."""
+    runs: List[Tuple[Dict[str, Any], Any, P.CaseResult]] = []
+    for topo in ("forked", "shared"):
+        for oi, ops in enumerate(c01.OPSETS[:3] if quick else c01.OPSETS):
+            case = {"ops": ops, "clock": "tick", "topology": topo, "backend": "s3cas", "lock": "grant_all"}
+            lim = ((30 if oi == 0 else 12) if topo == "forked" else 6) if quick else 300
+            for dev, res in c01.explore(ctx, case, 2, lim):
+                runs.append((case, list(dev), res))
+        for ops in (c01.OPSETS[:1] if quick else c01.OPSETS[:4]):
+            case = {"ops": ops, "clock": "tick", "topology": topo, "backend": "s3cas", "lock": "real", "clock_actor": {"jumps": 1, "ms": 61000}}
+            base = P.run_case(ctx.scratch, c01._fix_case(case), c01.dev_chooser({}), tag="c08t")
+            runs.append((case, [], base))
+            n0 = sum(1 for a in base.schedule if a == "A0")
+            for i in range(1, n0 + 1, 2 if quick and topo == "shared" else 1):
+                dev = [(i, "K"), (i + 1, "K"), (i + 2, "A1")]
+                runs.append((case, dev, P.run_case(ctx.scratch, c01._fix_case(case), c01.dev_chooser({int(k): v for k, v in dev}), tag="c08t")))
+    for i in range(8 if quick else 200):
+        ops = c01.OPSETS3[i % len(c01.OPSETS3)]
+        case = {"ops": ops, "clock": ctx.rng.choice(["tick", "coarse", "frozen"]), "topology": "forked", "backend": "s3cas",
+                "lock": "grant_all", "s3_conflict": ctx.rng.choice(["412", "409", "alt"])}
+        seed = ctx.rng.randrange(1 << 30)
+        runs.append((case, [("random", seed, 0.4)], P.run_case(ctx.scratch, c01._fix_case(case), _chooser_for([("random", seed, 0.4)]), tag="c08tr")))
+    return runs
+
+
+def topology_fault_runs(ctx, quick: bool) -> List[Tuple[Dict[str, Any], Any, P.CaseResult]]:
+    """A forked worker's pointer write fails at the request level (not applied / applied / in flight and landing later /
+    applied and the re-sent copy refused) with its sibling's whole commit at every position."""
+    runs: List[Tuple[Dict[str, Any], Any, P.CaseResult]] = []
+    k = 0
+    for ops in (c01.OPSETS[:1] if quick else c01.OPSETS[:4]):
+        for mode in FAULT_MODES:
+            k += 1
+            case = _fault_case(ops, "grant_all", "A0", mode, FAULT_EXCS[k % len(FAULT_EXCS)], topology="forked")
+            base = P.run_case(ctx.scratch, c01._fix_case(case), _chooser_for([]), tag="c08tf")
+            runs.append((case, [], base))
+            for i in range(1, len(base.schedule) + 1, 2 if quick else 1):
+                dev = [(i, "A1")]
+                res = P.run_case(ctx.scratch, c01._fix_case(case), _chooser_for(dev), tag="c08tf")
+                runs.append((case, dev, res))
+                if mode == "inflight":
+                    js = [j for j in range(i + 1, len(res.schedule)) if "L" in res.enabled_at[j] and res.schedule[j] != "L"]
+                    for j in js[-1:]:
+                        dev2 = dev + [(j, "L")]
+                        runs.append((case, dev2, P.run_case(ctx.scratch, c01._fix_case(case), _chooser_for(dev2), tag="c08tf")))
+    return runs
+
+
+def _fork_probe_names(nchildren: int, nattempts: int) -> Tuple[List[Optional[Any]], List[str]]:
+    """The real os.fork(): this process opens a table (in-memory conditional-write S3, lock that grants everyone), forks
+    `nchildren` workers, and every worker commits `nattempts` appends through the handle it inherited -- on ITS copy of the
+    store (memory is not shared after a fork), so the workers cannot disturb one another; each reports the names of the
+    metadata files it wrote.  Returns (reports, names written by more than one worker)."""
+    import uuid as _uuid
+
+    import datashard
+    from datashard.data_structures import Schema
+    from harness.lib import forkimage, mems3
+    real_uuid4 = _uuid.uuid4
+    sc = S.Scheduler()
+    store = mems3.MemS3(sc.now_ms)
+
+    def factory(tp: str) -> Any:
+        return S.instrument_backend(sc, mems3.make_s3_backend(store, "tbl", conditional=True), lock_mode="grant_all")
+    schema = Schema(schema_id=1, fields=[{"id": 1, "name": "x", "type": "long", "required": False}])
+    with S.patched(sc, factory, shared_rlock=True):
+        t0 = datashard.create_table("tbl", schema)
+        sc.clock_ms += 10
+        t0.append_records([{"x": -1}])
+        t0 = datashard.load_table("tbl")
+        before = set(store.objects)
+
+        def body(i: int) -> Any:
+            # the scheduler's uuid4 is a deterministic stream of THIS process, which a forked child would replay: the
+            # children draw from the real uuid4 (os.urandom), as the library does outside the harness
+            _uuid.uuid4 = real_uuid4
+            for k in range(nattempts):
+                sc.clock_ms += 10
+                t0.append_records([{"x": 1000 * (i + 1) + k}])
+            return sorted(k.rsplit("/", 1)[-1] for k in set(store.objects) - before
+                          if P.path_class(k.split("/", 1)[1] if "/" in k else k) == "meta")
+        reports = forkimage.real_fork_probe(nchildren, body)
+    seen: Dict[str, int] = {}
+    dup: List[str] = []
+    for r in reports:
+        if r is not None and r[0] == "ok":
+            for name in r[1]:
+                seen[name] = seen.get(name, 0) + 1
+    dup = sorted(n for n, c in seen.items() if c > 1)
+    return reports, dup
+
+
+def check_fork_probe(ctx, nchildren: int = 2, nattempts: int = 2) -> Optional[str]:
+    """Judgement of the real-fork probe; a probe that could not be carried out is a (loud) correspondence failure: the
+    in-process image of a fork (forkimage.fork_image) is trusted only as far as this probe agrees with it."""
+    try:
+        reports, dup = _fork_probe_names(nchildren, nattempts)
+    except Exception as e:      # noqa: BLE001
+        ctx.correspondence("real-fork-name-probe", 1, [{"probe": "real-fork", "error": repr(e)[:300]}])
+        return None
+    ctx.count(nchildren * nattempts, ("real-fork-name-probe", nchildren, nattempts))
+    ctx.stats["real_fork_probe"] = {"workers": nchildren, "commits_per_worker": nattempts,
+                                    "answered": sum(1 for r in reports if r is not None and r[0] == "ok")}
+    badrep = [repr(r)[:200] for r in reports if r is None or r[0] != "ok" or len(r[1]) != nattempts]
+    ctx.correspondence("real-fork-name-probe", nchildren, [{"probe": "real-fork", "reports": badrep}] if badrep and not dup else [])
+    if dup:
+        return (f"{nchildren} workers created by os.fork() from a process that had opened the table, each committing {nattempts} "
+                f"append(s) through the handle it inherited, wrote the SAME metadata file name(s) {dup}: names are not unique "
+                f"across commit attempts of forked processes")
+    return None
 
 
 def run(ctx) -> None:
@@ -694,11 +882,19 @@ def run(ctx) -> None:
     fruns = fault_runs(ctx, quick)
     # commit()'s fallback: the committers start on an unusable pointer
     uruns = fallback_runs(ctx, quick)
+    # process topology: forked workers on the handle they inherited, threads on one handle; names unique per commit attempt
+    truns = topology_runs(ctx, quick)
+    fruns += topology_fault_runs(ctx, quick)
+    check_name_uniqueness(ctx, runs + fruns + uruns + truns)
+    why_fork = check_fork_probe(ctx)
+    if why_fork:
+        ctx.violation("meta-name-reused:real-fork", why_fork, {"case": {"probe": "real-fork-names", "workers": 2, "attempts": 2}})
+    ctx.stats["topology_schedules"] = len(truns)
     # implementation-level statement of "a committer that lost its lock before the commit point reports a retryable
     # conflict, never success": with the real lease lock, once another committer has taken the lock over, the fence of the
     # previous holder (its is_held() just before the pointer write) must answer False -- judged on the storage log alone
     stolen_fences = 0
-    for case, dev, res in runs + fruns + uruns:
+    for case, dev, res in runs + fruns + uruns + truns:
         if case.get("lock") != "real":
             continue
         holder = None
@@ -734,6 +930,10 @@ def run(ctx) -> None:
     except RuntimeError as e:
         ctx.proof_problems.append("model evaluation failed (failing pointer writes): " + str(e)[:800])
     try:
+        c01.check_runs(ctx, "s3cas-topology-trace", truns)
+    except RuntimeError as e:
+        ctx.proof_problems.append("model evaluation failed (process topologies): " + str(e)[:800])
+    try:
         c01.check_runs(ctx, "s3cas-trace", runs)
     except RuntimeError as e:
         ctx.proof_problems.append("model evaluation failed: " + str(e)[:800])
@@ -760,6 +960,11 @@ def _fence_after_takeover(res: P.CaseResult) -> List[str]:
 def replay(ctx, payload) -> int:
     key = str(payload.get("key", ""))
     c = payload.get("case") or {}
+    pr = c.get("case") if isinstance(c.get("case"), dict) and c["case"].get("probe") else c
+    if pr.get("probe") == "real-fork-names":
+        _reports, dup = _fork_probe_names(int(pr.get("workers", 2)), int(pr.get("attempts", 2)))
+        print("replay:", f"STILL FAILS: forked workers wrote the same metadata file name(s) {dup}" if dup else "passes now")
+        return 1 if dup else 0
     if not c.get("case"):
         return c01.replay(ctx, payload)
     res = P.run_case(ctx.scratch, c01._fix_case(c["case"]), _chooser_for(c.get("deviations", [])), tag="replay")
@@ -767,6 +972,10 @@ def replay(ctx, payload) -> int:
         bad = _fence_after_takeover(res)
         print("replay:", f"STILL FAILS: fence answered True after a takeover for {bad}" if bad else "passes now")
         return 1 if bad else 0
+    if key.startswith("meta-name-reused"):
+        why = meta_name_reuse(res)
+        print("replay:", "STILL FAILS: " + why if why else "passes now")
+        return 1 if why else 0
     why = (ack_oracle(c["case"], res) if key.startswith("ptr-fault") else
            fallback_oracle(c["case"], res) if key.startswith("ptr-unusable") else c01.serial_oracle(c["case"], res))
     print("replay:", "STILL FAILS: " + why if why else "passes now")
